@@ -6,7 +6,10 @@
    The code writes the pid to a temporary file and renames it (Create, then Write = rename), so no step of the
    protocol produces a torn lock; an empty lock file found on disk is cleaned like a stale one. The pinned tree
    created the lock file in place and wrote the pid in a second step, and took an empty file for an error: those
-   two steps are kept as TestPinned / CreatePinned for the refutations. *)
+   two steps are kept as TestPinned / CreatePinned for the refutations.
+   The temporary files lock.<pid> are part of the state ([tmpf]): Create leaves one, the rename of Write takes it
+   away, nobody else touches it. The web UI's shutdown (commands/webui.go: wait for the requests being served,
+   then close the cache, then exit) is [ask] / [finish] at the end of the file. *)
 From Coq Require Import List Arith Bool Lia.
 Import ListNotations.
 
@@ -17,9 +20,10 @@ Record st := mkst {
   dead : list nat;          (* processes that are gone (exited, killed); a pid is never reused *)
   holders : list nat;       (* processes whose RepoCache is open (lock() returned nil, Close not yet run) *)
   ready : list nat;         (* passed repoIsAvailable, file not yet created *)
-  created : list nat        (* wrote the temporary file, not yet renamed (pinned: created the empty lock file) *)
+  created : list nat;       (* wrote the temporary file, not yet renamed (pinned: created the empty lock file) *)
+  tmpf : list nat           (* temporary files .git/git-bug/lock.<pid> on disk, by owner *)
 }.
-Definition st0 := mkst None [] [] [] [].
+Definition st0 := mkst None [] [] [] [] [].
 Definition mem (p : nat) (l : list nat) := existsb (Nat.eqb p) l.
 Definition rm (p : nat) (l : list nat) := filter (fun x => negb (Nat.eqb x p)) l.
 
@@ -29,15 +33,15 @@ Inductive out := Granted | Refused (holder : nat) | Corrupt | Done | Ignored.
 
 (* RepoCache.Close as called by a process that holds the cache: the lock file is removed *)
 Definition close1 (s : st) (p : nat) : st * out :=
-  if mem p (holders s) then (mkst None (dead s) (rm p (holders s)) (ready s) (created s), Done) else (s, Ignored).
+  if mem p (holders s) then (mkst None (dead s) (rm p (holders s)) (ready s) (created s) (tmpf s), Done) else (s, Ignored).
 (* the process is gone without running any cleanup (SIGKILL, crash, or os.Exit on a path that does not close) *)
 Definition kill1 (s : st) (p : nat) : st * out :=
-  (mkst (lockf s) (p :: dead s) (rm p (holders s)) (rm p (ready s)) (rm p (created s)), Done).
+  (mkst (lockf s) (p :: dead s) (rm p (holders s)) (rm p (ready s)) (rm p (created s)) (tmpf s), Done).
 (* RepoCache.Close as written in the code, called by a process that does NOT hold: the file is removed unconditionally *)
-Definition unlink (s : st) : st := mkst None (dead s) (holders s) (ready s) (created s).
+Definition unlink (s : st) : st := mkst None (dead s) (holders s) (ready s) (created s) (tmpf s).
 
 (* repoIsAvailable (Test), then Create (temporary file), then Write (rename): three separate steps, as in repo_cache.go *)
-Definition test_free (s : st) (p : nat) : st * out := (mkst None (dead s) (holders s) (p :: ready s) (created s), Granted).
+Definition test_free (s : st) (p : nat) : st * out := (mkst None (dead s) (holders s) (p :: ready s) (created s) (tmpf s), Granted).
 Definition step (s : st) (e : ev) : st * out :=
   match e with
   | Test p =>
@@ -47,10 +51,10 @@ Definition step (s : st) (e : ev) : st * out :=
       | Some LTorn => test_free s p                            (* empty lock file: nobody holds it, cleaned *)
       end
   | Create p => if mem p (ready s)
-                then (mkst (lockf s) (dead s) (holders s) (rm p (ready s)) (p :: created s), Done)
+                then (mkst (lockf s) (dead s) (holders s) (rm p (ready s)) (p :: created s) (p :: tmpf s), Done)
                 else (s, Ignored)
   | Write p => if mem p (created s)
-               then (mkst (Some (LPid p)) (dead s) (p :: holders s) (ready s) (rm p (created s)), Done)
+               then (mkst (Some (LPid p)) (dead s) (p :: holders s) (ready s) (rm p (created s)) (rm p (tmpf s)), Done)
                else (s, Ignored)
   | Close p => close1 s p
   | Kill p => kill1 s p
@@ -62,7 +66,7 @@ Definition step (s : st) (e : ev) : st * out :=
       | Some LTorn => (s, Corrupt)                              (* strconv.Atoi("") fails *)
       end
   | CreatePinned p => if mem p (ready s)
-                then (mkst (Some LTorn) (dead s) (holders s) (rm p (ready s)) (p :: created s), Done)
+                then (mkst (Some LTorn) (dead s) (holders s) (rm p (ready s)) (p :: created s) (tmpf s), Done)
                 else (s, Ignored)
   end.
 Definition fixed_ev (e : ev) : bool := match e with TestPinned _ | CreatePinned _ => false | _ => true end.
@@ -76,7 +80,7 @@ Definition open_atomic (s : st) (p : nat) : st * out :=
   | (s1, Granted) => (fst (step (fst (step s1 (Create p))) (Write p)), Granted)
   | (s1, o) => (s1, o)
   end.
-Definition granted (s : st) (p : nat) := mkst (Some (LPid p)) (dead s) (p :: holders s) [] [].
+Definition granted (s : st) (p : nat) := mkst (Some (LPid p)) (dead s) (p :: holders s) [] [] (rm p (tmpf s)).
 
 (* p performs the first k sub-steps of its open and dies there (k >= 3: dies while holding) *)
 Definition crash (s : st) (p k : nat) : st :=
@@ -132,13 +136,15 @@ Lemma rm_one p h : rm p [h] = if Nat.eqb h p then [] else [h].
 Proof. unfold rm. cbn. destruct (Nat.eqb h p); reflexivity. Qed.
 Lemma mem_self p : mem p [p] = true.
 Proof. unfold mem. cbn. rewrite Nat.eqb_refl. reflexivity. Qed.
+Lemma rm_cons_self p l : rm p (p :: l) = rm p l.
+Proof. unfold rm. cbn. rewrite Nat.eqb_refl. reflexivity. Qed.
 
 Arguments mem : simpl never.
 Arguments rm : simpl never.
-Ltac norm := repeat (cbn; rewrite ?mem_self, ?mem_nil, ?rm_self, ?rm_nil, ?Nat.eqb_refl).
+Ltac norm := repeat (cbn; rewrite ?mem_self, ?mem_nil, ?rm_self, ?rm_nil, ?rm_cons_self, ?Nat.eqb_refl).
 
 (* under the invariant the state has one of two shapes *)
-Lemma inv_shape l d hs r c : inv (mkst l d hs r c) ->
+Lemma inv_shape l d hs r c tf : inv (mkst l d hs r c tf) ->
   r = [] /\ c = [] /\ (hs = [] \/ exists h, hs = [h] /\ l = Some (LPid h) /\ mem h d = false).
 Proof.
   intros (R & C & H & N). cbn in *. subst r c. split; [reflexivity|]. split; [reflexivity|].
@@ -146,9 +152,9 @@ Proof.
   right. exists h. destruct (H h (or_introl eq_refl)) as [E D]. subst l. auto.
 Qed.
 
-Lemma inv_free d l : inv (mkst l d [] [] []).
+Lemma inv_free d l t : inv (mkst l d [] [] [] t).
 Proof. unfold inv. cbn. split; [reflexivity|]. split; [reflexivity|]. split; [intros p []|lia]. Qed.
-Lemma inv_held d h : mem h d = false -> inv (mkst (Some (LPid h)) d [h] [] []).
+Lemma inv_held d h t : mem h d = false -> inv (mkst (Some (LPid h)) d [h] [] [] t).
 Proof. intros D. unfold inv. cbn. split; [reflexivity|]. split; [reflexivity|]. split; [intros p [<-|[]]; auto|lia]. Qed.
 
 Lemma open_atomic_cases s p : ready s = [] -> created s = [] ->
@@ -163,9 +169,9 @@ Proof.
 Qed.
 
 Ltac shape s H := let l := fresh "l" in let d := fresh "d" in let hs := fresh "hs" in let r := fresh "r" in let c := fresh "c" in
-  let h := fresh "h" in let D := fresh "D" in
-  destruct s as [l d hs r c]; apply inv_shape in H as (-> & -> & [-> | (h & -> & -> & D)]).
-Lemma kill_held d h p : mem h d = false -> inv (mkst (Some (LPid h)) (p :: d) (rm p [h]) [] []).
+  let t := fresh "t" in let h := fresh "h" in let D := fresh "D" in
+  destruct s as [l d hs r c t]; apply inv_shape in H as (-> & -> & [-> | (h & -> & -> & D)]).
+Lemma kill_held d h p t : mem h d = false -> inv (mkst (Some (LPid h)) (p :: d) (rm p [h]) [] [] t).
 Proof.
   intros D. rewrite rm_one. destruct (Nat.eqb h p) eqn:Q; [apply inv_free|].
   apply inv_held. rewrite mem_cons, D, Q. reflexivity.
@@ -354,7 +360,7 @@ Definition badvance (s : st) (m : bm) : st * bm :=
          | None => (fst (kill1 s id), mkbm id 4 BRemoveErr)       (* somebody else removed it in between *)
          | Some _ => (unlink s, mkbm id 2 BGo)                     (* removes whatever is there now *)
          end
-  | 2 => (mkst (Some (LPid id)) (dead s) (id :: holders s) (ready s) (created s), mkbm id 3 BGo)
+  | 2 => (mkst (Some (LPid id)) (dead s) (id :: holders s) (ready s) (created s) (rm id (tmpf s)), mkbm id 3 BGo)
   | _ => (s, m)
   end.
 Definition badv3 (s : st) (p : nat) : st * bm :=
@@ -368,7 +374,7 @@ Lemma badv3_alone s p : ready s = [] -> created s = [] ->
   | _ => True
   end.
 Proof.
-  intros R C. rewrite (open_atomic_cases s p R C). unfold badv3, granted. destruct s as [l d hs r c]. cbn in R, C. subst r c.
+  intros R C. rewrite (open_atomic_cases s p R C). unfold badv3, granted. destruct s as [l d hs r c t]. cbn in R, C. subst r c.
   destruct l as [[q|]|]; cbn; [destruct (mem q d) eqn:D; cbn; rewrite ?D; cbn| |]; auto.
 Qed.
 
@@ -468,6 +474,120 @@ Proof. vm_compute. auto. Qed.
 Lemma close_on_refusal_refuted : exists s, inv s /\ lockf s = Some (LPid 1) /\ In 1 (holders s) /\
   let s' := fst (command close_always FBackend Success s 2) in
   lockf s' = None /\ In 1 (holders s') /\ mem 1 (dead s') = false.
+Proof.
+  exists (fst (open_atomic st0 1)). split; [apply (inv_held [] 1); reflexivity|]. vm_compute. repeat split; auto.
+Qed.
+
+(* ---------- temporary files ----------
+   lock() writes the pid to lock.<pid> and renames it onto lock, and only after repoIsAvailable has let it through:
+   a refused open creates nothing, a completed open leaves nothing; only a process that dies between the two steps
+   leaves its temporary file behind. *)
+Lemma tmpf_kill s p : tmpf (fst (kill1 s p)) = tmpf s.
+Proof. reflexivity. Qed.
+Lemma tmpf_close s p : tmpf (fst (close1 s p)) = tmpf s.
+Proof. unfold close1. destruct (mem p (holders s)); reflexivity. Qed.
+Lemma tmpf_test s p : tmpf (fst (step s (Test p))) = tmpf s.
+Proof. cbn. destruct (lockf s) as [[q|]|]; [destruct (mem q (dead s))| |]; reflexivity. Qed.
+Lemma tmpf_open s p : tmpf (fst (open_atomic s p)) = tmpf s \/ tmpf (fst (open_atomic s p)) = rm p (tmpf s).
+Proof.
+  unfold open_atomic. cbn [step].
+  destruct (lockf s) as [[q|]|]; [destruct (mem q (dead s))| |]; unfold test_free; repeat (norm; rewrite ?mem_cons); norm; auto.
+Qed.
+Lemma rm_nil_eq p l : l = [] -> rm p l = [].
+Proof. intros ->. reflexivity. Qed.
+Lemma tmpf_open_nil s p : tmpf s = [] -> tmpf (fst (open_atomic s p)) = [].
+Proof. intros E. destruct (tmpf_open s p) as [H|H]; rewrite H, E; reflexivity. Qed.
+
+Definition crashes (e : aev) : bool := match e with ACrash _ _ => true | _ => false end.
+Lemma tmpf_astep s e : crashes e = false -> tmpf s = [] -> tmpf (astep s e) = [].
+Proof.
+  destruct e as [p|p|p|p|p k]; cbn [astep crashes]; intros C E; try discriminate.
+  - now apply tmpf_open_nil.
+  - now rewrite tmpf_close.
+  - exact E.
+  - cbn [step]. now rewrite tmpf_kill, tmpf_close.
+Qed.
+Lemma no_stray_tmp es : forall s, forallb (fun e => negb (crashes e)) es = true -> tmpf s = [] -> tmpf (arun s es) = [].
+Proof.
+  induction es as [|e t IH]; intros s F E; cbn in *; auto.
+  apply andb_true_iff in F as [F1 F2]. apply IH; auto. apply tmpf_astep; auto. now apply negb_true_iff in F1.
+Qed.
+Lemma command_no_tmp f pa s p : tmpf s = [] -> tmpf (fst (command fixed f pa s p)) = [].
+Proof.
+  intros E. unfold command. destruct pa; try exact E; cbn [closes fixed on_refused];
+  assert (O := tmpf_open_nil s p E); destruct (open_atomic s p) as [s1 o]; cbn [fst] in O;
+  destruct o; cbn [fst step]; rewrite ?tmpf_kill, ?tmpf_close; exact O.
+Qed.
+
+(* a temporary file on disk belongs to a process that is gone *)
+Lemma In_rm_sub x p l : In x (rm p l) -> In x l.
+Proof. intros H. apply In_rm in H. tauto. Qed.
+Lemma mem_cons_mono x p d : mem x d = true -> mem x (p :: d) = true.
+Proof. intros H. rewrite mem_cons, H. apply orb_true_r. Qed.
+Definition tinv (s : st) := forall x, In x (tmpf s) -> mem x (dead s) = true.
+Lemma tinv_open s p : tinv s -> tinv (fst (open_atomic s p)).
+Proof.
+  intros T x H. rewrite dead_open. apply T. destruct (tmpf_open s p) as [E|E]; rewrite E in H; auto. now apply In_rm_sub in H.
+Qed.
+Lemma tinv_kill s p : tinv s -> tinv (fst (kill1 s p)).
+Proof. intros T x H. cbn in *. apply mem_cons_mono. now apply T. Qed.
+Lemma tinv_close s p : tinv s -> tinv (fst (close1 s p)).
+Proof. intros T x H. rewrite dead_close. rewrite tmpf_close in H. now apply T. Qed.
+Lemma tinv_crash s p k : tinv s -> tinv (crash s p k).
+Proof.
+  intros T. destruct k as [|[|[|k]]]; unfold crash.
+  - now apply tinv_kill.
+  - apply tinv_kill. intros x H. rewrite dead_test. rewrite tmpf_test in H. now apply T.
+  - assert (T1 : tinv (fst (step s (Test p)))) by (intros x H; rewrite dead_test; rewrite tmpf_test in H; now apply T).
+    destruct (step s (Test p)) as [s1 o]. cbn [fst] in T1. destruct o; try (now apply tinv_kill).
+    intros x H. cbn [kill1 fst tmpf dead step] in *. destruct (mem p (ready s1)); cbn [fst tmpf dead] in *.
+    + destruct H as [<-|H]; [rewrite mem_cons, Nat.eqb_refl; reflexivity|apply mem_cons_mono; now apply T1].
+    + apply mem_cons_mono. now apply T1.
+  - apply tinv_kill. now apply tinv_open.
+Qed.
+Lemma tinv_astep s e : tinv s -> tinv (astep s e).
+Proof.
+  destruct e as [p|p|p|p|p k]; cbn [astep]; intros T.
+  - now apply tinv_open.
+  - now apply tinv_close.
+  - now apply tinv_kill.
+  - cbn [step]. apply tinv_kill. now apply tinv_close.
+  - now apply tinv_crash.
+Qed.
+Lemma tinv_areach s : areach s -> tinv s.
+Proof. induction 1; [intros x []|now apply tinv_astep]. Qed.
+
+(* a refused command leaves the whole state as it was (lock file, temporary files, the others' caches), except that it is gone *)
+Lemma refuse_command_frame f pa s p q : pa <> EarlyErr -> lockf s = Some (LPid q) -> mem q (dead s) = false ->
+  let s' := fst (command fixed f pa s p) in
+  s' = fst (kill1 s p) /\ lockf s' = lockf s /\ tmpf s' = tmpf s /\ holders s' = rm p (holders s).
+Proof.
+  intros NE L D. unfold command. destruct pa; try congruence; rewrite (refuse_open s p q L D); cbn; auto.
+Qed.
+
+(* ---------- the web UI's orderly shutdown ----------
+   On SIGINT / SIGTERM the server stops accepting and waits for the requests being served (which work on the cache),
+   then the cache is closed and the process exits: [ask] is the moment the signal arrives with a request in flight,
+   [finish] the end of that request. CloseThenWait is the other order: the lock is removed first. *)
+Inductive sdorder := WaitThenClose | CloseThenWait.
+Definition ask (o : sdorder) (s : st) (p : nat) : st :=
+  match o with WaitThenClose => s | CloseThenWait => if mem p (holders s) then unlink s else s end.
+Definition finish (o : sdorder) (s : st) (p : nat) : st :=
+  match o with WaitThenClose => fst (step s (Fail p)) | CloseThenWait => fst (kill1 s p) end.
+
+Lemma asked_keeps_lock s p q : inv s -> In p (holders s) ->
+  let s1 := ask WaitThenClose s p in
+  In p (holders s1) /\ lockf s1 = Some (LPid p) /\ open_atomic s1 q = (s1, Refused p) /\ inv (finish WaitThenClose s1 p) /\
+  lockf (finish WaitThenClose s1 p) = None.
+Proof.
+  intros I Hp. assert (I' := I). destruct I' as (_ & _ & H & _). destruct (H p Hp) as [L D]. cbn.
+  split; [exact Hp|]. split; [exact L|]. split; [now apply refuse_open|]. split; [apply inv_kill; now apply inv_close|].
+  unfold close1. apply mem_In in Hp. rewrite Hp. reflexivity.
+Qed.
+Lemma early_release_refuted : exists s, inv s /\ In 1 (holders s) /\
+  let s1 := ask CloseThenWait s 1 in
+  lockf s1 = None /\ mem 1 (dead s1) = false /\
+  snd (open_atomic s1 2) = Granted /\ holders (fst (open_atomic s1 2)) = [2; 1] /\ dead (fst (open_atomic s1 2)) = [].
 Proof.
   exists (fst (open_atomic st0 1)). split; [apply (inv_held [] 1); reflexivity|]. vm_compute. repeat split; auto.
 Qed.
